@@ -46,9 +46,14 @@ class Prepared:
         self.sem = rsem.Sem(self.rd, self.objects, self.eps, self.vars, variant=frozenset(task.get("variant", ())))
         self.cs = self.sem.call(self.rd.actions[task["action"]], task["args"])
         self.all_atoms = _all_ground_atoms(self.rd, self.objects, self.consts)
-        self.all_fluents = _all_ground_fluents(self.rd, self.objects, self.consts)
+        universe_fluents = _all_ground_fluents(self.rd, self.objects, self.consts)
+        relf = sorted(self.cs.read_fluents | self.cs.written_fluents)
+        n_ff = task.get("frame_fluents", 1)
+        # state fluents: everything the call reads or writes + frame fluents it must not touch
+        self.all_fluents = relf + [f for f in universe_fluents if f not in relf][:n_ff]
         rel = sorted(self.cs.read_atoms | self.cs.written_atoms)
-        frame = [a for a in self.all_atoms if a not in rel][: task.get("frame_atoms", 2)]
+        n_fa = task.get("frame_atoms", 0 if task.get("mode") == "applicable" else 1)
+        frame = [a for a in self.all_atoms if a not in rel][:n_fa]
         self.sym_atoms = rel + frame
         self.frame_atoms = frame
         self.false_atoms = [a for a in self.all_atoms if a not in self.sym_atoms]
@@ -76,9 +81,120 @@ def concrete_state(world: lib.World, prep: Prepared, atom_vals: Dict[str, bool],
     return world.make_state(atoms, fl)
 
 
-def make_operator(world: lib.World, task):
-    from pddl_plus_parser.models import Operator
+class PermSet(set):
+    """A set whose *iteration order* is a chosen permutation (the library's effect collections
+    are hash sets keyed by object identity or string hash: their order is an implicit
+    schedule).  Only Python-level iteration is redirected; membership, add, discard are the
+    real set operations."""
 
+    _seed = 0
+    _cache = None
+
+    def __iter__(self):
+        ident = tuple(sorted(map(id, set.__iter__(self))))
+        if self._cache is None or self._cache[0] != ident:
+            items = sorted(set.__iter__(self), key=_stable_key)
+            if self._seed == 1:
+                items.reverse()
+            elif self._seed > 1:
+                import random
+                random.Random(self._seed).shuffle(items)
+            self._cache = (ident, items)
+        return iter(self._cache[1])
+
+
+def _stable_key(x):
+    """A printable identity that does not go through the library's __str__ of conditions
+    (which runs sympy)."""
+    try:
+        if hasattr(x, "to_pddl"):
+            return "n" + x.to_pddl(6)
+        if hasattr(x, "untyped_representation"):
+            return "p" + x.untyped_representation
+        if hasattr(x, "grounded_discrete_effects"):
+            return "g" + _keys(x.grounded_discrete_effects) + "|" + _keys(x.grounded_numeric_effects) + \
+                ("|c" + _pre_key(x.grounded_antecedents._lifted_precondition.root) if x.grounded_antecedents is not None else "")
+        if hasattr(x, "antecedents"):
+            return "c" + _pre_key(x.antecedents.root) + "=>" + _keys(x.discrete_effects) + "|" + _keys(x.numeric_effects)
+        if hasattr(x, "conditional_effects"):
+            return "u" + x.quantified_parameter + x.quantified_type.name + _keys(x.conditional_effects)
+        if hasattr(x, "operands"):
+            return "o" + _pre_key(x)
+        return "z" + str(x)
+    except Exception:  # noqa
+        return "zz" + repr(type(x))
+
+
+def _keys(s):
+    return ",".join(sorted(_stable_key(e) for e in set.__iter__(s)))
+
+
+def _pre_key(pre):
+    q = getattr(pre, "quantified_parameter", "")
+    return f"({pre.binary_operator}{q} " + _keys(pre.operands) + " =" + str(sorted(pre.equality_preconditions)) + \
+        " !=" + str(sorted(pre.inequality_preconditions)) + ")"
+
+
+def permset(s, seed):
+    if isinstance(s, PermSet) and s._seed == seed:
+        return s
+    p = PermSet(set.__iter__(s) if isinstance(s, PermSet) else s)
+    p._seed = seed
+    return p
+
+
+def impose_order(action, seed):
+    """Replace the effect/condition collections of a parsed action by PermSets."""
+    if seed is None:
+        return
+    action.discrete_effects = permset(action.discrete_effects, seed)
+    action.numeric_effects = permset(action.numeric_effects, seed)
+    action.conditional_effects = permset(action.conditional_effects, seed)
+    action.universal_effects = permset(action.universal_effects, seed)
+    for ce in list(set.__iter__(action.conditional_effects)):
+        ce.discrete_effects = permset(ce.discrete_effects, seed)
+        ce.numeric_effects = permset(ce.numeric_effects, seed)
+    for ue in list(set.__iter__(action.universal_effects)):
+        ue.conditional_effects = permset(ue.conditional_effects, seed)
+        for ce in list(set.__iter__(ue.conditional_effects)):
+            ce.discrete_effects = permset(ce.discrete_effects, seed)
+            ce.numeric_effects = permset(ce.numeric_effects, seed)
+
+    def walk(pre):
+        pre.operands = permset(pre.operands, seed)
+        for o in list(set.__iter__(pre.operands)):
+            if hasattr(o, "operands"):
+                walk(o)
+
+    walk(action.preconditions.root)
+    for ce in list(set.__iter__(action.conditional_effects)):
+        walk(ce.antecedents.root)
+
+
+def impose_order_grounded(op, seed):
+    if seed is None:
+        return
+    if not op.grounded:
+        op.ground()
+    op.lifted_universal_effects = op.action.universal_effects
+    op.grounded_effects = permset(op.grounded_effects, seed)
+    for ge in list(set.__iter__(op.grounded_effects)):
+        ge.grounded_discrete_effects = permset(ge.grounded_discrete_effects, seed)
+        ge.grounded_numeric_effects = permset(ge.grounded_numeric_effects, seed)
+    if op.problem_objects is not None and seed:
+        items = sorted(op.problem_objects.items())
+        if seed == 1:
+            items.reverse()
+        else:
+            import random
+            random.Random(seed).shuffle(items)
+        op.problem_objects = dict(items)
+
+
+def make_operator(world: lib.World, task):
+    Operator = lib._models().Operator
+
+    impose_order(world.domain.actions[task["action"]], task.get("order"))
     return Operator(
         action=world.domain.actions[task["action"]],
         domain=world.domain,
@@ -146,11 +262,14 @@ def replay_concrete(task, atoms: Dict[str, bool], fl_float: Dict[str, float]):
             got = bool(op.is_applicable(state))
             out["observed"] = {"applicable": got}
             out["disagree"] = bool(exp_defined) and got != exp_pre
+            if task.get("twin") == "never_applicable":
+                out["disagree"] = got is True
         except Exception as e:  # noqa
             out["observed"] = {"exception": f"{type(e).__name__}: {e}"}
             out["disagree"] = bool(exp_defined)
         return out
     # apply
+    impose_order_grounded(op, task.get("order"))
     before = lib.state_digest(state)
     try:
         nxt = op.apply(state, **task.get("apply_kwargs", {}))
@@ -184,6 +303,8 @@ def replay_concrete(task, atoms: Dict[str, bool], fl_float: Dict[str, float]):
     out["observed"] = {"atoms": sorted(got_atoms), "fluents": {k: v for k, v in got_fl.items()}}
     out["diffs"] = diffs
     out["disagree"] = bool(exp_defined) and bool(exp_pre) and bool(exp_cons) and len(diffs) > 0
+    if task.get("twin") == "successor_equals_predecessor":
+        out["disagree"] = got_atoms != {a for a, v in atoms.items() if v}
     return out
 
 
@@ -214,6 +335,7 @@ def run_task(task) -> dict:
         variants = task.get("known_variants", [])  # list of (finding_id, [variant switches])
         var_cs = {fid: prep.variant_sem(v) for fid, v in variants}
         attributed = {}
+        shared_world = [None]  # the domain is parsed once per task; C07 checks that calls do not modify it
 
         def fn(ctx: Ctx):
             # assumptions first (they are not retroactive)
@@ -223,12 +345,16 @@ def run_task(task) -> dict:
                 ok = ctx.assume(z3.And(cs.defined, cs.pre, cs.consistent))
             if not ok:
                 return ("vacuous", None, None, None)
-            world = lib.World(task["domain_text"], task["objects"])
+            world = shared_world[0]
+            if world is None or task.get("fresh_world_per_path"):
+                world = lib.World(task["domain_text"], task["objects"])
+                shared_world[0] = world
             state, keys = build_state(ctx, world, prep)
             op = make_operator(world, task)
             if mode == "applicable":
                 r = op.is_applicable(state)
                 return ("applicable", bool(r), None, None)
+            impose_order_grounded(op, task.get("order"))
             before = lib.state_digest(state)
             nxt = op.apply(state, **task.get("apply_kwargs", {}))
             after = lib.state_digest(state)
@@ -237,15 +363,22 @@ def run_task(task) -> dict:
         def post_for(c, value, keys):
             """list of (description, z3 obligation) for oracle call-semantics c"""
             obs = []
+            if task.get("twin") == "never_applicable":
+                return [("TWIN never applicable", z3.BoolVal(value) == z3.BoolVal(False))]
+            if task.get("twin") == "successor_equals_predecessor":
+                got = lib.state_atoms(value)
+                return [(f"TWIN atom {a} unchanged", prep.vars.atom(a) == z3.BoolVal(a in got)) for a in prep.sym_atoms]
             if mode == "applicable":
                 obs.append(("applicable == pre", z3.BoolVal(value) == c.pre))
                 return obs
             nxt = value
             got = lib.state_atoms(nxt)
-            for a in prep.all_atoms:
-                t = c.next_atom.get(a, prep.vars.atom(a) if a in prep.sym_atoms else z3.BoolVal(False))
+            for a in prep.sym_atoms:
+                t = c.next_atom.get(a, prep.vars.atom(a))
                 obs.append((f"atom {a}", t == z3.BoolVal(a in got)))
-            extra = got - set(prep.all_atoms)
+            # atoms outside the symbolic slice are absent before the call and never written
+            # (every written atom is in the slice): they must be absent afterwards
+            extra = got - set(prep.sym_atoms)
             if extra:
                 obs.append((f"unexpected atoms {sorted(extra)}", z3.BoolVal(False)))
             inv = {v: k for k, v in keys.items()}
@@ -332,8 +465,8 @@ def run_task(task) -> dict:
                 if "unconfirmed_sample" not in res:
                     res["unconfirmed_sample"] = {"what": desc, "replay": _jsonable(rp)}
 
-        explore(fn, on_path, stats=stats, max_paths=task.get("max_paths", 20000),
-                timeout_ms=task.get("timeout_ms", 20000))
+        explore(fn, on_path, stats=stats, max_paths=task.get("max_paths", 4000),
+                timeout_ms=task.get("timeout_ms", 4000))
         res["paths"] = stats.paths
         res["reached"] = reached[0]
         res["stats"] = stats.as_dict()
@@ -345,7 +478,8 @@ def run_task(task) -> dict:
         res["outcome"] = "inconclusive"
         res["detail"] = f"solver unknown at {e}"
     except PathLimit as e:
-        res["outcome"] = "inconclusive"
+        if res["outcome"] != "violation":
+            res["outcome"] = "out_of_bound"
         res["detail"] = str(e)
     except Unsupported as e:
         res["outcome"] = "inconclusive"
